@@ -59,7 +59,7 @@ fn run_mt(case: &Value) -> Value {
 	let v = rt.block_on(async move {
 		let script = Script {
 			children: case["script"]["children"].as_array().map(|a| a.iter().map(beh_of).collect()).unwrap_or_default(),
-			spawn_fail: vec![], signal_fail: vec![], kill_fail: vec![], wait_fail: vec![],
+			spawn_fail: vec![], signal_fail: vec![], kill_fail: vec![], wait_fail: vec![], signal_errno: None,
 		};
 		let sh: Shared = Arc::new(Mutex::new(World { t0: tokio::time::Instant::now(), log: vec![], script, attempts: 0, spawned: 0, waits: 0, force_exit: None, signals: 0, kills: 0 }));
 		let command = Arc::new(Command { program: Program::Exec { prog: "true".into(), args: vec![] }, options: SpawnOptions::default() });
@@ -182,6 +182,7 @@ fn run_case(case: &Value) -> Value {
 			signal_fail: case["script"]["signal_fail"].as_array().map(|a| a.iter().map(|x| x.as_u64().unwrap() as usize).collect()).unwrap_or_default(),
 			kill_fail: case["script"]["kill_fail"].as_array().map(|a| a.iter().map(|x| x.as_u64().unwrap() as usize).collect()).unwrap_or_default(),
 			wait_fail: case["script"]["wait_fail"].as_array().map(|a| a.iter().map(|x| x.as_u64().unwrap() as usize).collect()).unwrap_or_default(),
+			signal_errno: case["script"]["signal_errno"].as_i64().map(|n| n as i32),
 		};
 		let sh: Shared = Arc::new(Mutex::new(World {
 			t0: tokio::time::Instant::now(), log: vec![], script, attempts: 0, spawned: 0, waits: 0, force_exit: None, signals: 0, kills: 0,
@@ -286,6 +287,15 @@ fn run_case(case: &Value) -> Value {
 				}
 				"set_hook" => install_hook(&job, &sh, Some(op["mark"].as_u64().unwrap())),
 				"unset_hook" => install_hook(&job, &sh, None),
+				"run_send" => {
+					// a run() whose function itself sends a marked function at an explicit priority (from within the job task)
+					let (sh2, m, j2, m2, p2) = (sh.clone(), op["mark"].as_u64().unwrap(), job.clone(), op["then_mark"].as_u64().unwrap(), op["then_prio"].as_u64().unwrap() as u8);
+					job.run(move |ctx| {
+						log(&sh2, &format!("mark({m},{},{})", state_tag(ctx.current), ctx.previous.map_or("-".into(), state_tag)));
+						let sh3 = sh2.clone();
+						drop(j2.verif_send(watchexec_supervisor::job::Control::SyncFunc(Box::new(move |ctx| log(&sh3, &format!("mark({m2},{},{})", state_tag(ctx.current), ctx.previous.map_or("-".into(), state_tag))))), p2));
+					})
+				}
 				"run_exit_wait" => {
 					// a run() whose function makes the command end at this very instant and queues a to_wait() (high lane)
 					let (sh2, m, j2) = (sh.clone(), op["mark"].as_u64().unwrap(), job.clone());
@@ -303,8 +313,25 @@ fn run_case(case: &Value) -> Value {
 			};
 			for w in 0..nwait {
 				let (t, res, sh2) = (ticket.clone(), resolved.clone(), sh.clone());
+				let late_clone = w > 0 && case["late_clone"].as_bool().unwrap_or(false);
 				waiters.push(tokio::spawn(async move {
-					t.await;
+					if late_clone {
+						// poll the ticket once; when it is not resolved yet, wait on a clone made of the polled ticket
+						let mut t = t;
+						let pending = std::future::poll_fn(|cx| std::task::Poll::Ready(std::future::Future::poll(std::pin::Pin::new(&mut t), cx).is_pending())).await;
+						if pending {
+							// ... from another task (another waker)
+							let c = t.clone();
+							let h = tokio::spawn(async move { c.await });
+							let ab = h.abort_handle();
+							struct Ab(tokio::task::AbortHandle);
+							impl Drop for Ab { fn drop(&mut self) { self.0.abort(); } }
+							let _g = Ab(ab);
+							drop(h.await);
+						}
+					} else {
+						t.await;
+					}
 					let now = { let w0 = sh2.lock().unwrap(); now_ms(&w0) };
 					res.lock().unwrap()[k][w] = Some(now);
 				}));
